@@ -280,7 +280,7 @@ impl Property for C15 {
             for _ in 0..250 {
                 let mut codes = Vec::new();
                 random_nested(rng, 0, &mut codes);
-                let style = rng.below(6);
+                let style = rng.below(8);
                 if !emit(json!({"kind": "pp", "codes": codes, "style": style})) {
                     return;
                 }
@@ -300,6 +300,9 @@ impl Property for C15 {
                     // a comment glued to the directive word / the macro name / the marker
                     Some(4) => "// glued\n",
                     Some(5) => "/* glued */\n",
+                    // a line comment that mentions comment delimiters: nothing opens or closes inside it
+                    Some(6) => " // see /* below\n",
+                    Some(7) => "// */ closes nothing, /* opens nothing\n",
                     _ => "\n",
                 };
                 // style 3: whitespace and block comments in front of the directives
@@ -365,6 +368,13 @@ fn embedded(case: &Case) -> Verdict {
                 _ => {
                     reg.push_str(&format!("#ifndef UNDEF_{k}\n#ifdef UNDEF_{k}\ninclude \"nowhere.td\"\n#else\ndef ENABLED_{k};\n#endif\n#else\n#ifndef X\ndef DISABLED_{k};\n#endif\n#endif\n"));
                     enabled.push(format!("ENABLED_{k}"));
+                }
+            }
+            // a line comment behind the directives, with comment delimiters in it
+            if rng.chance(1, 4) {
+                reg = reg.replace("\n#else\n", "\n#else // the /* other branch\n").replace("\n#endif\n", "\n#endif // */ done /*\n");
+                if let Some(p) = reg.find('\n') {
+                    reg.insert_str(p, " // see /* below");
                 }
             }
             // a tab where a blank may stand: behind the directive word, and at the end of a directive line
